@@ -229,6 +229,49 @@ class EulerLeaf(Harness):
         return cl
 
 
+class EulerPole(Harness):
+    """exactly at a gimbal pole (pitch = +-pi/2, any yaw and roll): the extraction takes its pole branch and returns an
+    element with the same rotation matrix (yaw := yaw -+ roll, roll := 0), pitch = +-pi/2"""
+    timeout_ms = 60000
+    defined = "prove"
+
+    def __init__(self, sign):
+        self.sign = sign
+        self.name = "C07:Euler.from_Matrix:pole" + ("+" if sign > 0 else "-")
+
+    def build(self):
+        T = G("EulerB321")
+        R = ca.SX.sym("R", 3, 3)
+        Y = T.from_Matrix(R)
+        return ca.Function("euler_pole", [ca.vec(R)], [ca.SX(Y.to_Matrix()), ca.SX(Y.param)])
+
+    def make_ctx(self):
+        from ..oracles import Lattice, rotx, roty, rotz
+        from ..enc import Angle
+        ctx = Ctx()
+        Lp = Lattice(ctx, "psiX", "half", positive=False)
+        Lf = Lattice(ctx, "phiX", "half", positive=False)
+        self.lats = [Lp, Lf]
+        pi = ctx.pi()
+        sg = self.sign
+        ctx.angles.append(Angle(pi / 2 * sg, sin=Val(sg), cos=Val(0), flags={"asin"}, name="pole"))
+        R = V.mat_mul(V.mat_mul(rotz(Lp.s, Lp.c), roty(Val(sg), Val(0))), rotx(Lf.s, Lf.c))
+        ctx.aux = {"R": R, "pi": pi}
+        return ctx, [V.vec(R)]
+
+    def env_fix(self, env):
+        for L in self.lats:
+            L.concretize(env)
+        env["pi"] = mp.pi
+
+    def claims(self, outs, ins, aux):
+        MY, py = outs
+        cl = entry_claims("same_rotation", MY, aux["R"])
+        half = aux["pi"] / 2 if isinstance(aux["pi"], Val) else mp.pi / 2
+        cl.append(Claim("pitch_at_pole", py[1][0], half * self.sign))
+        return cl
+
+
 class Shadow(Harness):
     """shadow_if_necessary never changes the rotation and returns |r| <= 1"""
     timeout_ms = 60000
@@ -261,7 +304,7 @@ def all_harnesses(tier):
     hs += [Direct("Dcm", "Quat"), Direct("Dcm", "Quat", -1), Direct("Dcm", "Mrp"), Direct("Quat", "Mrp"),
            Direct("Mrp", "Quat"), Direct("Mrp", "Quat", -1)]
     # leaves
-    hs += [FromMatrixLeaf(1), FromMatrixLeaf(-1), EulerLeaf(), Shadow()]
+    hs += [FromMatrixLeaf(1), FromMatrixLeaf(-1), EulerLeaf(), EulerPole(1), EulerPole(-1), Shadow()]
     # composites (target, source)
     for t, s in [("Dcm", "EulerB321"), ("EulerB321", "Dcm"), ("EulerB321", "Quat"), ("EulerB321", "Mrp"),
                  ("Quat", "Dcm"), ("Quat", "EulerB321"), ("Mrp", "Dcm"), ("Mrp", "EulerB321"),
